@@ -647,7 +647,7 @@ func (fv *FV) frameObligations(st *State, k int, pos token.Pos) {
 				}
 			}
 			fv.omarkDecl()
-			phi := fmt.Sprintf("(forall ((r Int) (x Int)) (=> %s (= (select (select %s r) x) (select (select %s r) x))))", and(append([]string{"(omark x)", sel(alloc0, "r")}, excl...)...), cur.S, fv.heapGet(fv.entry, key))
+			phi := fmt.Sprintf("(forall ((r Int) (x Int)) (=> %s (= (select (select %s r) x) (select (select %s r) x))))", and(append([]string{"(omark x)", sel(alloc0, "r"), not(eq("r", "0"))}, excl...)...), cur.S, fv.heapGet(fv.entry, key))
 			fv.oblige(st, fmt.Sprintf("frame[%s].r%d", key, k), phi, "frame: only elements named in `modifies` (or of freshly allocated arrays) change in "+key, nil, pos)
 			continue
 		}
@@ -657,7 +657,7 @@ func (fv *FV) frameObligations(st *State, k int, pos token.Pos) {
 		}
 		guardAlloc := "true"
 		if is == sInt && !strings.HasPrefix(key, "C:") && !strings.HasPrefix(key, "G:") {
-			guardAlloc = sel(alloc0, "r")
+			guardAlloc = and(sel(alloc0, "r"), not(eq("r", "0"))) // fields of the nil object are never read
 		}
 		phi := fmt.Sprintf("(forall ((r %s)) (=> %s (= (select %s r) (select %s r))))", is, and(append([]string{guardAlloc}, excl...)...), cur.S, fv.heapGet(fv.entry, key))
 		fv.oblige(st, fmt.Sprintf("frame[%s].r%d", key, k), phi, "frame: only locations in `modifies` (or freshly allocated) change in "+key, nil, pos)
@@ -706,8 +706,26 @@ func (fv *FV) verify() (err error) {
 		}
 	}
 	_ = sig
+	body := fd.Body
+	if fv.fc != nil && fv.fc.Seq != "" {
+		// a function that only returns a range function: what is verified is the body of that function literal, with
+		// the outer parameters as they are at the time of the call (the only supported use is `for … := range f(…)`,
+		// which invokes the literal at once)
+		var lit *ast.FuncLit
+		if len(fd.Body.List) == 1 {
+			if rs, ok := fd.Body.List[0].(*ast.ReturnStmt); ok && len(rs.Results) == 1 {
+				lit, _ = ast.Unparen(rs.Results[0]).(*ast.FuncLit)
+			}
+		}
+		if lit == nil || lit.Type.Results != nil || len(lit.Type.Params.List) != 1 || len(lit.Type.Params.List[0].Names) != 1 || lit.Type.Params.List[0].Names[0].Name != fv.fc.Seq {
+			return unsupported{"seq contract: the body must be `return func(" + fv.fc.Seq + " func(T) bool) { … }`"}
+		}
+		declare(fv.info.Defs[lit.Type.Params.List[0].Names[0]].(*types.Var))
+		body = lit.Body
+		fv.assumptions["range functions: the function literal returned by "+fv.fi.FullName()+" is verified as if invoked at once, with the parameters of the enclosing call unchanged (true of `for … := range f(…)`, the only use the engine accepts)"] = true
+	}
 	// results
-	if fd.Type.Results != nil {
+	if fd.Type.Results != nil && body == fd.Body {
 		for _, f := range fd.Type.Results.List {
 			if len(f.Names) == 0 {
 				fv.resNames = append(fv.resNames, "")
@@ -741,7 +759,7 @@ func (fv *FV) verify() (err error) {
 			st.ghost[g.Name] = Term{S: fv.fresh(g.Name, s), Sort: s, T: t}
 		}
 	}
-	fv.numberLoops(fd.Body)
+	fv.numberLoops(body)
 	if fv.fc != nil {
 		for _, g := range fv.fc.Ghosts {
 			if (strings.HasPrefix(g.Anchor, "after ") || strings.HasPrefix(g.Anchor, "before ")) && fv.ghostLoops[g] == nil {
@@ -749,7 +767,7 @@ func (fv *FV) verify() (err error) {
 			}
 		}
 	}
-	fv.funcCands = fv.collectFuncCands(fd.Body)
+	fv.funcCands = fv.collectFuncCands(body)
 	fv.entry = st.clone()
 	fv.emitAxioms(st)
 	if fv.fc != nil {
@@ -762,8 +780,8 @@ func (fv *FV) verify() (err error) {
 		fv.entry = st.clone()
 		fv.obligeSat(st, "vacuity.requires", "the preconditions are satisfiable")
 	}
-	fv.ghostAt(st, "entry", fd.Body.Lbrace)
-	end := fv.execBlock(st, fd.Body.List)
+	fv.ghostAt(st, "entry", body.Lbrace)
+	end := fv.execBlock(st, body.List)
 	if end != nil && end.guard != "false" {
 		var results []Term
 		for _, o := range fv.results {
